@@ -11,6 +11,7 @@ Definition label_code (l : label) : Z :=
   match l with
   | LGet => 0 | LSet => 1 | LAcq => 2 | LRel => 3 | LCreate => 4 | LUpload => 5 | LComplete => 6
   | LVarGet => 7 | LVarSet => 8 | LVarDel => 9
+  | LRegGet => 10 | LNewLock => 11 | LRegSet => 12
   end.
 Definition label_eqb (a b : label) : bool := label_code a =? label_code b.
 
@@ -31,14 +32,14 @@ Definition c_outcome (th : cthread) : Z :=
 Definition sink_state := (option bytes * bool * list (Z * bytes))%type.
 
 Inductive case :=
-| CLocal (recheck : bool) (progs : list (list op)) (sched : list Z)
-         (labels : list label) (calls : list call) (outs : list Z) (creates : Z) (locked : bool)
+| CLocal (recheck reg0 : bool) (progs : list (list op)) (sched : list Z)
+         (labels : list label) (calls : list call) (outs : list Z) (creates : Z) (locked reg : bool)
 | CCluster (progs : list (Z * list op)) (sched : list Z)
            (labels : list label) (calls : list call) (outs : list Z) (uids : list Z) (deleted : bool)
-| CLocalP (progs : list (list op)) (steps calls outs : list Z) (creates : Z) (locked : bool)
+| CLocalP (reg0 : bool) (progs : list (list op)) (steps calls outs : list Z) (creates : Z) (locked reg : bool)
 | CClusterP (progs : list (Z * list op)) (steps calls outs uids : list Z) (deleted : bool)
-| CDisabled (cluster : bool) (progs : list (Z * list op)) (sched : list Z) (t : Z)
-| CSink (empty_fails : bool) (ws : list (Z * bytes)) (ps : list Z) (keep : bool) (expect : res sink_state)
+| CDisabled (cluster reg0 : bool) (progs : list (Z * list op)) (sched : list Z) (t : Z)
+| CSink (empty_fails : bool) (pre : option bytes) (ws : list (Z * bytes)) (ps : list Z) (keep : bool) (expect : res sink_state)
 | CLimits (l : limits) (expect : Z * Z * Z * Z)
 | CS3Limits (expect : Z * Z * Z * Z).
 
@@ -47,7 +48,8 @@ Inductive case :=
 Definition label_of_code (c : Z) : label :=
   if c =? 0 then LGet else if c =? 1 then LSet else if c =? 2 then LAcq else if c =? 3 then LRel
   else if c =? 4 then LCreate else if c =? 5 then LUpload else if c =? 6 then LComplete
-  else if c =? 7 then LVarGet else if c =? 8 then LVarSet else LVarDel.
+  else if c =? 7 then LVarGet else if c =? 8 then LVarSet else if c =? 9 then LVarDel
+  else if c =? 10 then LRegGet else if c =? 11 then LNewLock else LRegSet.
 
 Definition call_of_code (c : Z) : call :=
   let kind := c mod 4 in
@@ -76,12 +78,12 @@ Definition wprogs (l : list (Z * list op)) : list (nat * list op) :=
 
 Fixpoint check_fuel (fuel : nat) (c : case) : bool :=
   match c with
-  | CLocalP progs steps calls outs creates locked =>
+  | CLocalP reg0 progs steps calls outs creates locked reg =>
       match fuel with
       | O => false
-      | S f => check_fuel f (CLocal true progs (map (fun z => z / 16) steps)
+      | S f => check_fuel f (CLocal true reg0 progs (map (fun z => z / 16) steps)
                                     (map (fun z => label_of_code (z mod 16)) steps)
-                                    (map call_of_code calls) outs creates locked)
+                                    (map call_of_code calls) outs creates locked reg)
       end
   | CClusterP progs steps calls outs uids deleted =>
       match fuel with
@@ -90,15 +92,16 @@ Fixpoint check_fuel (fuel : nat) (c : case) : bool :=
                                       (map (fun z => label_of_code (z mod 16)) steps)
                                       (map call_of_code calls) outs uids deleted)
       end
-  | CLocal recheck progs sched labels calls outs creates locked =>
-      match l_run std_id recheck (l_init progs) (nats sched) with
+  | CLocal recheck reg0 progs sched labels calls outs creates locked reg =>
+      match l_run std_id recheck (l_init reg0 progs) (nats sched) with
       | None => false
       | Some (lbs, s) =>
           list_eqb label_eqb lbs labels &&
           list_eqb call_eqb (rev (l_log (fst s))) calls &&
           list_eqb Z.eqb (map l_outcome (snd s)) outs &&
           (Z.of_nat (l_creates (fst s)) =? creates) &&
-          Bool.eqb (match l_lock (fst s) with Some _ => true | None => false end) locked
+          Bool.eqb (match l_lock (fst s) with Some _ => true | None => false end) locked &&
+          Bool.eqb (l_reg (fst s)) reg
       end
   | CCluster progs sched labels calls outs uids deleted =>
       match c_run std_id (c_init (wprogs progs)) (nats sched) with
@@ -110,7 +113,7 @@ Fixpoint check_fuel (fuel : nat) (c : case) : bool :=
           list_eqb Z.eqb (map (c_uids (fst s)) (seq 0 (length uids))) uids &&
           Bool.eqb (c_deleted (fst s)) deleted
       end
-  | CDisabled cluster progs sched t =>
+  | CDisabled cluster reg0 progs sched t =>
       (* after [sched] thread [t] is NOT enabled (finished or waiting for the lock) *)
       if cluster then
         match c_run std_id (c_init (wprogs progs)) (nats sched) with
@@ -118,12 +121,14 @@ Fixpoint check_fuel (fuel : nat) (c : case) : bool :=
         | Some (_, s) => match c_step std_id s (Z.to_nat t) with None => true | Some _ => false end
         end
       else
-        match l_run std_id true (l_init (map snd progs)) (nats sched) with
+        match l_run std_id true (l_init reg0 (map snd progs)) (nats sched) with
         | None => false
         | Some (_, s) => match l_step std_id true s (Z.to_nat t) with None => true | Some _ => false end
         end
-  | CSink empty_fails ws ps keep expect =>
-      match sink_finalise empty_fails keep (sink_writes ws) ps, expect with
+  | CSink empty_fails pre ws ps keep expect =>
+      (* [pre]: content of a destination file that exists before anything is written *)
+      match sink_finalise empty_fails keep
+              (fold_left (fun f w => sink_write f (fst w) (snd w)) ws (mkFS pre false [])) ps, expect with
       | Ok f, Ok e => sink_state_eqb f e
       | Err e1, Err e2 => err_code e1 =? err_code e2
       | _, _ => false
